@@ -1,7 +1,7 @@
 SPECIFICATION Spec
 CONSTANTS
   Users = {"u1", "u2"}
-  Contents = {"a", "b"}
+  Contents = {"a", "a+a~1", "b"}
   MaxMsgs = 2
   MaxRec = 8
   MaxTx = 4
